@@ -300,13 +300,12 @@ class Oracle:
         # (3) write then read reproduces the configuration exactly; (4) ids
         if o["op"] == "write" and res == 0:
             self.stats["roundtrips"] += 1
-            want = json.dumps(cfg)
             fresh = drv.cls(file_path=drv.path)
             again = drv.cls()
             again.read_from_file(drv.path)
             for who, c2 in (("fresh constructor", fresh), ("read_from_file", again)):
-                if json.dumps(c2.to_dict()) != want:
-                    self.fail("write_read", i, "%s after write_to_file shows %s, written %s" % (who, json.dumps(c2.to_dict())[:300], want[:300]))
+                if c2.to_dict() != cfg:             # dictionary equality (the order of keys is compared by the correspondence only)
+                    self.fail("write_read", i, "%s after write_to_file shows %s, written %s" % (who, json.dumps(c2.to_dict())[:300], json.dumps(cfg)[:300]))
             if self.lookups and not dup:
                 self.ids(i, cfg)
 
